@@ -171,11 +171,13 @@ func (c05) Run(t *tape.Tape, st *Stats) *Violation {
 	} else {
 		switch t.Pick(4, 3, 3, 1) {
 		case 0:
-			f = refmodel.BuildPNG(refmodel.DrawPNG(t, 0, []int{1, 300, 5000}, false))
+			// a damaged embedded profile does not make the image header any less
+			// well-formed: dimensions, depth and format must still be reported
+			f = refmodel.BuildPNG(refmodel.DrawPNG(t, 0, []int{1, 300, 5000}, true))
 		case 1:
-			f = refmodel.BuildJPEG(refmodel.DrawJPEG(t, 0, []int{1, 300, 70000}, false, nil))
+			f = refmodel.BuildJPEG(refmodel.DrawJPEG(t, 0, []int{1, 300, 70000}, true, nil))
 		case 2:
-			f = refmodel.BuildWebP(refmodel.DrawWebP(t, -1, 0, []int{1, 300, 5000}, false))
+			f = refmodel.BuildWebP(refmodel.DrawWebP(t, -1, 0, []int{1, 300, 5000}, true))
 		default:
 			// PNG dimension patterns: single bits, all-ones prefixes / suffixes, neighbours of powers of two
 			p := refmodel.DrawPNG(t, 2, nil, false)
